@@ -18,6 +18,7 @@ func loadContracts(c *Ctx) *vc.Contracts {
 		fmt.Println("ERROR: contract corpus:", err)
 		os.Exit(2)
 	}
+	cs.Attach(c.P)
 	c.Extra["contract_files"] = files
 	for _, a := range cs.Assumed {
 		c.Trusted = append(c.Trusted, "assumed contract: "+a)
